@@ -198,10 +198,67 @@ def bounded(chk):
     chk.bounded_result("write_zip_read_roundtrip", n2, n2, False,
                        "FsOutput.write_pages/close -> zip -> extractall -> NuWiki: every revision by revid, every title (4 spellings) -> newest revision; texts with near-separators, CR/LF, empty, non-BMP",
                        [f2] if f2 else [])
+    n3, f3 = history_and_images_case()
+    chk.bounded_result("lookups_in_sequence_and_image_files", n3, n3, True,
+                       "one archive through FsOutput -> zip -> extractall -> NuWiki: colon titles with a non-namespace prefix looked up under different default namespaces one after the other (both orders); image files whose names hold dots, '~' and non-ASCII letters found again by title",
+                       [f3] if f3 else [])
     bad, w, cls = replay_redirect(None, None)
     chk.bounded_result("redirect_with_stored_stub", 2, 1, True,
                        "archive holding the redirecting stub, the target and the redirects.json entry (what the fetcher writes): the stub's title, in two spellings, leads to the target's text",
                        [{"detail": str(w), "witness": w, "class": cls}] if bad else [])
+
+
+def history_and_images_case():
+    import os, shutil, tempfile, zipfile
+    from mwlib.core import nuwiki
+    from mwlib.network import siteinfo
+    from mwlib.network.fetch import FsOutput
+    pages = [("Star Trek: Voyager", 0, 1, "voyager text"), ("Template:Star Trek: Navbox", 10, 2, "navbox text"), ("Template:Foo: Bar", 10, 3, "foo bar text")]
+    images = ["File:And so on....png", "File:A b.png", "File:\u00c4~x.v1.2.png", "File:Star Trek: Logo.png"]
+    n = 0
+    for order in (0, 1):
+        base = tempfile.mkdtemp(prefix="verif_c14_")
+        try:
+            path = os.path.join(base, "nuwiki")
+            out = FsOutput(path)
+            out.dump_json(siteinfo=siteinfo.get_siteinfo("en"))
+            for title, ns, rev, text in pages:
+                out.write_pages({"pages": {str(rev): {"title": title, "ns": ns, "revisions": [{"revid": rev, "*": text}]}}})
+            for im in images:
+                p = out.get_imagepath(im)
+                os.makedirs(os.path.dirname(p), exist_ok=True)
+                open(p, "wb").write(b"PNG" + im.encode("utf-8"))
+            out.close()
+            zpath = os.path.join(base, "a.zip")
+            with zipfile.ZipFile(zpath, "w") as z:
+                for d, _, fs in os.walk(path):
+                    for f in fs:
+                        z.write(os.path.join(d, f), os.path.relpath(os.path.join(d, f), path))
+            dst = os.path.join(base, "x") + "/"
+            os.makedirs(dst)
+            try:
+                with zipfile.ZipFile(zpath) as z:
+                    nuwiki.extractall(z, dst)
+            except Exception as e:  # noqa: BLE001
+                return n + 1, {"detail": f"the archive written by FsOutput cannot be unpacked: {type(e).__name__}: {e}", "witness": {"images": images}, "class": "archive-unreadable"}
+            nw = nuwiki.NuWiki(dst)
+            lookups = [("Star Trek: Voyager", 0, "voyager text"), ("Star Trek: Navbox", 10, "navbox text"), ("Foo: Bar", 10, "foo bar text"), ("Star Trek: Voyager", 0, "voyager text")]
+            if order:
+                lookups.reverse()
+            for name, dns, want in lookups:
+                n += 1
+                pg = nw.normalize_and_get_page(name, dns)
+                if pg is None or pg.rawtext != want:
+                    return n, {"detail": f"after {[(a, b) for a, b, _ in lookups[:lookups.index((name, dns, want))]]}: normalize_and_get_page({name!r}, {dns}) = {None if pg is None else pg.rawtext!r}, stored: {want!r}",
+                               "witness": {"lookups": [(a, b) for a, b, _ in lookups]}, "class": "lookup-depends-on-history"}
+            for im in images:
+                n += 1
+                got = nw.normalize_and_get_image_path(im)
+                if not got or not os.path.exists(got) or open(got, "rb").read() != b"PNG" + im.encode("utf-8"):
+                    return n, {"detail": f"image {im!r} stored by FsOutput is not found again (normalize_and_get_image_path -> {got!r})", "witness": {"image": im}, "class": "image-not-found"}
+        finally:
+            shutil.rmtree(base, ignore_errors=True)
+    return n, None
 
 
 def replay(model, obligation):
